@@ -165,6 +165,15 @@ cfg_if! {
 }
 
 pub fn utf8_valid_up_to(src: &[u8]) -> usize {
+    // Verification hook: lets a harness force the built-in scalar validator.
+    #[cfg(feature = "hsivonen_encoding_rs_verif")]
+    let fast_utf8_valid_up_to = |s: &[u8]| {
+        if crate::verif::scalar_utf8_validation_forced() {
+            None
+        } else {
+            fast_utf8_valid_up_to(s)
+        }
+    };
     if let Some(up_to) = fast_utf8_valid_up_to(src) {
         return up_to;
     }
